@@ -47,4 +47,171 @@ BENIGN = [
     dict(name="b-expect-message", file=ADF, old="\"both stacks (interpr_history and `stack`) should always be synchronous\"", new="\"the two stacks are always in lock-step\"", silent=["C05"]),
     # frontend: explicit match instead of if-let
     dict(name="b-recv-explicit-len", file=FRONT, old="        if term.value() < self.nodes.len() {\n            true", new="        let known = self.nodes.len();\n        if term.value() < known {\n            true", silent=["C19"]),
+    # ---- extract-helper refactorings
+    dict(name="b-server-extract-filter-helper", file=SADF, old="""    let adf_problem = match adf_coll
+        .find_one(doc! { "name": &problem_name, "username": &username }, None)
+        .await
+    {
+        Err(err) => return HttpResponse::InternalServerError().body(err.to_string()),
+        Ok(None) => {
+            return HttpResponse::NotFound()
+                .body(format!("ADF problem with name {problem_name} not found."))
+        }
+        Ok(Some(prob)) => prob,
+    };
+
+    HttpResponse::Ok().json(AdfProblemInfo::from_adf_prob_and_tasks(""", new="""    let filter = doc! { "name": &problem_name, "username": &username };
+    let adf_problem = match adf_coll.find_one(filter, None).await {
+        Err(err) => return HttpResponse::InternalServerError().body(err.to_string()),
+        Ok(None) => {
+            return HttpResponse::NotFound()
+                .body(format!("ADF problem with name {problem_name} not found."))
+        }
+        Ok(Some(prob)) => prob,
+    };
+
+    HttpResponse::Ok().json(AdfProblemInfo::from_adf_prob_and_tasks(""", silent=["C17", "C16"]),
+    dict(name="b-nogood-extract-conflict-fn", file=ADF, old="""                .any(|(cur, ac)| {
+                    cur.is_truth_value() && ac.is_truth_value() && cur.is_true() != ac.is_true()
+                })""", new="""                .any(|(cur, ac)| Self::contradicts(cur, ac))""", also=[dict(file=ADF, old="    fn nogood_internal<H, I>(", new="""    fn contradicts(cur: &Term, ac: &Term) -> bool {
+        cur.is_truth_value() && ac.is_truth_value() && cur.is_true() != ac.is_true()
+    }
+
+    fn nogood_internal<H, I>(""")], silent=["C05"]),
+    dict(name="b-grounded-extract-step-fn", file=ADF, old="""                    .fold(*ac, |acc, (var, term)| {
+                        if term.is_truth_value() {
+                            self.bdd.restrict(acc, Var(var), term.is_true())
+                        } else {
+                            acc
+                        }
+                    });
+                if ac.is_truth_value() {
+                    t_vals += 1;""", new="""                    .fold(*ac, |acc, (var, term)| self.substitute_decided(acc, var, term));
+                if ac.is_truth_value() {
+                    t_vals += 1;""", also=[dict(file=ADF, old="    fn grounded_internal(&mut self, interpretation: &[Term]) -> Vec<Term> {", new="""    fn substitute_decided(&mut self, acc: Term, var: usize, term: &Term) -> Term {
+        if term.is_truth_value() {
+            self.bdd.restrict(acc, Var(var), term.is_true())
+        } else {
+            acc
+        }
+    }
+
+    fn grounded_internal(&mut self, interpretation: &[Term]) -> Vec<Term> {""")], silent=["C01"]),
+    dict(name="b-cli-grounded-bind-printer", file=MAIN, old="""                if self.grounded {
+                    let grounded = adf.grounded();
+                    print!("{}", adf.print_interpretation(&grounded));
+                }
+
+                if self.complete {
+                    for model in adf.complete() {
+                        print!("{}", adf.print_interpretation(&model));""", new="""                if self.grounded {
+                    let grounded = adf.grounded();
+                    let line = adf.print_interpretation(&grounded);
+                    print!("{}", line);
+                }
+
+                if self.complete {
+                    for model in adf.complete() {
+                        print!("{}", adf.print_interpretation(&model));""", silent=["C15"]),
+    # ---- style rewrites
+    dict(name="b-node-early-return", file=OBDD, old="""        if lo == hi {
+            lo
+        } else {
+            let node = BddNode::new(var, lo, hi);
+            match self.cache.get(&node) {
+                Some(t) => *t,
+                None => {""", new="""        if lo == hi {
+            return lo;
+        }
+        {
+            let node = BddNode::new(var, lo, hi);
+            if let Some(t) = self.cache.get(&node) {
+                return *t;
+            }
+            match None::<Term> {
+                Some(t) => t,
+                None => {""", silent=["C06", "C07", "C19", "C11"]),
+    dict(name="b-complete-bind-restricted", file=ADF, old="""                it.compare_inf(&interpretation.iter().enumerate().fold(
+                    ac[ac_idx],
+                    |acc, (var, term)| {
+                        if term.is_truth_value() {
+                            self.bdd.restrict(acc, Var(var), term.is_true())
+                        } else {
+                            acc
+                        }
+                    },
+                ))""", new="""                let restricted_ac = interpretation.iter().enumerate().fold(
+                    ac[ac_idx],
+                    |acc, (var, term)| {
+                        if term.is_truth_value() {
+                            self.bdd.restrict(acc, Var(var), term.is_true())
+                        } else {
+                            acc
+                        }
+                    },
+                );
+                it.compare_inf(&restricted_ac)""", silent=["C02"]),
+    dict(name="b-cli-parse-if-let-err", file=MAIN, old="""                match parser.parse()(&input) {
+                    Ok(_) => log::info!("[Done] parsing"),
+                    Err(e) => {
+                        log::error!("Error during parsing:\\n{} \\n\\n cannot continue, panic!", e);
+                        panic!("Parsing failed, see log for further details")
+                    }
+                }
+                if self.sort_lex {
+                    parser.varsort_lexi();
+                }
+                if self.sort_alphan {
+                    parser.varsort_alphanum();
+                }
+                let adf = if !self.stable_rew {""", new="""                if let Err(e) = parser.parse()(&input) {
+                    log::error!("Error during parsing:\\n{} \\n\\n cannot continue, panic!", e);
+                    panic!("Parsing failed, see log for further details")
+                }
+                log::info!("[Done] parsing");
+                if self.sort_lex {
+                    parser.varsort_lexi();
+                }
+                if self.sort_alphan {
+                    parser.varsort_alphanum();
+                }
+                let adf = if !self.stable_rew {""", silent=["C08", "C15", "C10"]),
+    dict(name="b-cli-export-early-error", file=MAIN, old="""                    if export.exists() {
+                        log::error!(
+                            "Cannot write JSON file <{}>, as it already exists",
+                            export.to_string_lossy()
+                        );
+                    } else {
+                        let export_file = match File::create(export) {""", new="""                    if !export.exists() {
+                        let export_file = match File::create(export) {""", also=[dict(file=MAIN, old="""                        serde_json::to_writer(export_file, &adf).unwrap_or_else(|_| {
+                            panic!("Writing JSON file {} failed", export.to_string_lossy())
+                        });
+                    }
+                }""", new="""                        serde_json::to_writer(export_file, &adf).unwrap_or_else(|_| {
+                            panic!("Writing JSON file {} failed", export.to_string_lossy())
+                        });
+                    } else {
+                        log::error!(
+                            "Cannot write JSON file <{}>, as it already exists",
+                            export.to_string_lossy()
+                        );
+                    }
+                }""")], silent=["C14"]),
+    dict(name="b-server-let-else-identity", file=SADF, old="""    let username = match identity.map(|id| id.id()) {
+        None => {
+            return HttpResponse::Unauthorized().body("You need to login to get an ADF problem.")
+        }
+        Some(Err(err)) => return HttpResponse::InternalServerError().body(err.to_string()),
+        Some(Ok(username)) => username,
+    };
+
+    let adf_problem = match adf_coll""", new="""    let Some(identity) = identity else {
+        return HttpResponse::Unauthorized().body("You need to login to get an ADF problem.");
+    };
+    let username = match identity.id() {
+        Err(err) => return HttpResponse::InternalServerError().body(err.to_string()),
+        Ok(username) => username,
+    };
+
+    let adf_problem = match adf_coll""", nth=0, silent=["C17", "C16"]),
 ]
